@@ -43,8 +43,10 @@ import (
 )
 
 const (
-	longWait  = 90 * time.Second       // deadline for things that must happen
-	shortWait = 2500 * time.Millisecond // how long a request the known defect may starve is given
+	longWait    = 90 * time.Second        // deadline for things that must happen
+	shortWait   = 2500 * time.Millisecond // how long a request the known defect may starve is given
+	leakWait    = 3 * time.Second         // how long a want-list that holds only delivered keys is watched
+	divergeWait = 10 * time.Second        // how long the engine is given to reach the prediction of the defective variant
 )
 
 // ---------- block universe ----------
@@ -101,6 +103,20 @@ func dedup(xs []int) []int {
 	}
 	return out
 }
+func subset(a, b []int) bool {
+	for _, x := range a {
+		found := false
+		for _, y := range b {
+			if x == y {
+				found = true
+			}
+		}
+		if !found {
+			return false
+		}
+	}
+	return true
+}
 func intsEq(a, b []int) bool {
 	if len(a) != len(b) {
 		return false
@@ -126,9 +142,9 @@ func recvBlock(ch <-chan blocks.Block, d time.Duration) (b blocks.Block, open, t
 // ================= unit level =================
 
 type uev struct {
-	Pub    bool `json:"pub"`
-	K      int  `json:"k"`
-	Sess   bool `json:"session_ctx,omitempty"` // cancel through the session context instead of the request context
+	Pub  bool `json:"pub"`
+	K    int  `json:"k"`
+	Sess bool `json:"session_ctx,omitempty"` // cancel through the session context instead of the request context
 }
 
 type ureq struct {
@@ -428,19 +444,44 @@ func runNode(t *testing.T, evs []nev) (string, map[string]any) {
 	var reqs []*nreq
 	var terms []string
 	wl := func() []int { return u.ids(req.Exchange.GetWantlist()) }
-	// settle waits until the want-list equals what one of the two variants of the model predicts
-	settle := func() []int {
-		deadline := time.Now().Add(longWait)
+	// settle waits until the want-list equals what the model predicts. The two variants of the
+	// model (defect C37-1 on / off) mostly agree; where they differ the engine is first given
+	// time to reach the prediction of the code as it is (its cancellation is asynchronous, so
+	// the other prediction may be a transient state), and from then on only the variant that
+	// the engine followed is waited for.
+	follow := ""
+	waitFor := func(want []int, d time.Duration) ([]int, bool) {
+		deadline := time.Now().Add(d)
 		for {
 			got := wl()
-			if intsEq(got, on.wantlist()) || intsEq(got, off.wantlist()) {
-				return got
+			if intsEq(got, want) {
+				return got, true
 			}
 			if time.Now().After(deadline) {
-				return got // Coq will report the mismatch
+				return got, false
 			}
 			time.Sleep(time.Millisecond)
 		}
+	}
+	settle := func() []int {
+		pon, poff := on.wantlist(), off.wantlist()
+		switch {
+		case intsEq(pon, poff) || follow == "on":
+			got, _ := waitFor(pon, longWait)
+			return got // on a timeout Coq reports the mismatch
+		case follow == "off":
+			got, _ := waitFor(poff, longWait)
+			return got
+		}
+		if got, ok := waitFor(pon, divergeWait); ok {
+			follow = "on"
+			return got
+		}
+		got, ok := waitFor(poff, longWait)
+		if ok {
+			follow = "off"
+		}
+		return got
 	}
 	emit := func(ev string, obs []int, have bool) {
 		terms = append(terms, fmt.Sprintf("(%s, %s)", ev, optNats(have, obs)))
@@ -471,6 +512,12 @@ func runNode(t *testing.T, evs []nev) (string, map[string]any) {
 			d := longWait
 			if may[i] {
 				d = shortWait
+				if (follow == "on" && !inOn[i]) || (follow == "off" && !inOff[i]) {
+					continue // the variant the engine follows does not deliver here
+				}
+				if (follow == "on" && inOn[i]) || (follow == "off" && inOff[i]) {
+					d = longWait
+				}
 			}
 			b, open, to := recvBlock(r.ch, d)
 			if to {
@@ -749,6 +796,11 @@ func runSys(t *testing.T, spec sysSpec) (string, map[string]any, []sreqObs) {
 		}
 	}
 	cancelAll()
+	ended := time.Now()
+	requestedOn := make([][]int, spec.Nodes)
+	for _, r := range spec.Reqs {
+		requestedOn[r.Node] = append(requestedOn[r.Node], r.Keys...)
+	}
 	// every request has ended: every node's want-list must drain
 	final := make([][]int, spec.Nodes)
 	deadline := time.Now().Add(longWait)
@@ -756,6 +808,13 @@ func runSys(t *testing.T, spec sysSpec) (string, map[string]any, []sreqObs) {
 		for {
 			final[n] = u.ids(inst[n].Exchange.GetWantlist())
 			if len(final[n]) == 0 || time.Now().After(deadline) {
+				break
+			}
+			if time.Since(ended) > leakWait && subset(final[n], requestedOn[n]) {
+				// keys of ended requests that do not go away: C37-2 (a want sent after the
+				// cancel); no need to sit out the long deadline
+				t.Logf("node %d keeps keys %v in its want-list (want-blocks %v, want-haves %v)", n, final[n],
+					u.ids(inst[n].Exchange.GetWantBlocks()), u.ids(inst[n].Exchange.GetWantHaves()))
 				break
 			}
 			time.Sleep(2 * time.Millisecond)
@@ -890,6 +949,19 @@ func TestC37(t *testing.T) {
 		cs.Add(term, rp)
 		st.Case(term, true)
 		st.Count("unit")
+	}
+
+	// C37-2 is a race inside the client (no deterministic schedule without hooks): the spec on
+	// which it was first seen is run a number of times; a run that shows the leak is classified
+	// as that finding, the others are ordinary cases
+	leakSpec := sysSpec{Nodes: 6, Latency: 20, Holders: [][]int{{2}, {4}, {4}, {4, 1}, {2}, {2}, {0}, {}, {0, 4}},
+		Reqs: []sreqSpec{{Node: 3, Sess: 2, Keys: []int{1, 6, 3, 4}, CancelAfter: -1, StartDelay: 5}}}
+	for i := 0; i < e.Pick(12, 60); i++ {
+		term, rp, _ := runSys(t, leakSpec)
+		rp["corpus"] = "C37-2 attempt"
+		cs.Add(term, rp)
+		st.Case(fmt.Sprintf("%s#%d", term, i), true)
+		st.Count("system.leak-attempt")
 	}
 
 	for i := 0; i < e.Pick(400, 6000); i++ {
